@@ -174,6 +174,7 @@ type tssCase struct {
 	pad        padSpec
 	exhaustive bool
 	idx        int
+	odd        bool
 }
 
 func TestVerifThresholdRSA(t *testing.T) {
@@ -232,6 +233,23 @@ func TestVerifThresholdRSA(t *testing.T) {
 			}
 		}
 	}
+	// moduli whose bit length is not a multiple of 8 (every residue 1..7, and
+	// 2041 = 1 mod 8 where emBits is a multiple of 8 and the PSS block is one
+	// octet shorter than the modulus): the PSS top-bit mask and the length of
+	// the encoded message depend on it
+	lib.Mandatory("tss:odd-modulus-length")
+	for oi, name := range []string{"plain-1025", "plain-1026", "plain-1027", "plain-1028", "plain-1029", "plain-1030", "plain-1031", "plain-2041"} {
+		ok := loadKey(t, name)
+		lks := [][2]int{{3, 2}}
+		if lib.Thorough() {
+			lks = append(lks, [2]int{5, 3}, [2]int{4, 4}, [2]int{6, 1})
+		}
+		for _, lk := range lks {
+			for pi := 0; pi < 3; pi++ {
+				cases = append(cases, tssCase{key: ok, l: lk[0], k: lk[1], pad: pads[pi], exhaustive: oi%2 == 0 || lib.Thorough(), odd: true})
+			}
+		}
+	}
 	for i := range cases {
 		cases[i].idx = i
 	}
@@ -265,6 +283,9 @@ func tssOne(c tssCase, F *findings) {
 	}
 	if c.l > 6 {
 		lib.Count("tss:large-l")
+	}
+	if c.odd {
+		lib.Count("tss:odd-modulus-length")
 	}
 
 	// ---- message and padding
